@@ -1096,6 +1096,10 @@ class EFn(C.Fn):
                 self.env[p["id"]] = "drop"
             elif kind == "queue":
                 self.env[p["id"]] = "queue"
+            elif kind == "pollbits":
+                nm = self.fresh("pollOut")             # only the POLLOUT bit of a `short &events` parameter
+                self.env[p["id"]] = ("pollbits", nm)
+                self.params_lean.append((nm, "Bool"))
             elif kind == "ptr":
                 if t != PTR:
                     fail("parameter `%s` is not a char pointer" % cname)
